@@ -36,6 +36,7 @@ type ExpText struct {
 	Firm  bool       `json:"firm"`
 	Undef bool       `json:"undef"`
 	NoRet bool       `json:"noret"`
+	Skip  bool       `json:"skip"`
 	// optional: the specification's instruction count (C10)
 	Steps int `json:"steps,omitempty"`
 }
@@ -372,6 +373,19 @@ func replayMain(args []string) int {
 			defer wg.Done()
 			defer func() { <-sem }()
 			src := renderProgram(c)
+			// texts the specification declines to run (process code whose
+			// termination it cannot establish) are not sent to the real code
+			kept := ec.R[:0:0]
+			for _, r := range ec.R {
+				if r.Skip {
+					mu.Lock()
+					rep.Abstained++
+					mu.Unlock()
+					continue
+				}
+				kept = append(kept, r)
+			}
+			ec.R = kept
 			texts := make([][]int, len(ec.R))
 			for i, r := range ec.R {
 				texts[i] = r.T
@@ -385,6 +399,29 @@ func replayMain(args []string) int {
 				rep.Samples = append(rep.Samples, Node{"src": src, "text": ec.R[len(ec.R)-1].T, "expect": ec.R[len(ec.R)-1].Ms})
 			}
 			mu.Unlock()
+			if acc, has := c["accept"].(bool); has && resp.Crash == "" {
+				implAccepts := resp.CErr == "" && resp.CPanic == "" && !resp.BothNil
+				mu.Lock()
+				rep.Evaluations++
+				if !acc {
+					rep.Nontrivial++
+				}
+				mu.Unlock()
+				if resp.CPanic == "" && implAccepts != acc {
+					if fields["accept"] {
+						what := "rejects"
+						if implAccepts {
+							what = "accepts"
+						}
+						addViolation(Violation{Property: *prop, Kind: "accept", Sig: "accept", Src: src, Case: c,
+							Detail: fmt.Sprintf("the typing rules say accept=%v but Compile %s it: %s", acc, what, resp.CErr)})
+					}
+					return
+				}
+				if !acc {
+					return
+				}
+			}
 			if resp.Crash != "" {
 				// isolate the text that kills the worker
 				for i := range ec.R {
@@ -396,7 +433,7 @@ func replayMain(args []string) int {
 			if *wantAst && resp.CErr == "" && resp.CPanic == "" {
 				mu.Lock()
 				rep.AstChecked++
-				if resp.AstErr != "" || canon(anyList(resp.Ast)) != canon(anyList(caseAsCommands(c))) {
+				if resp.AstErr != "" || canon(anyList(resp.Ast)) != canon(stripToks(anyList(caseAsCommands(c)))) {
 					rep.AstMismatch++
 					if len(rep.Undecided) < 5 {
 						rep.Undecided = append(rep.Undecided, "ast mismatch: "+src+" => "+resp.AstErr+" "+canon(anyList(resp.Ast)))
